@@ -299,7 +299,7 @@ def join_types(a: T.Ty, b: T.Ty) -> T.Ty | None:
 
 
 class State:
-    __slots__ = ("env", "heap", "alloc", "pc", "escaped", "ghost", "dead", "pyheap")
+    __slots__ = ("env", "heap", "alloc", "pc", "escaped", "ghost", "dead", "pyheap", "mutated", "rebound")
 
     def __init__(self):
         self.env: dict[str, Val] = {}
@@ -310,6 +310,8 @@ class State:
         self.ghost: dict = {}
         self.pyheap: dict = {}  # (object constant name, field) -> python-level Val (closures, classes, concrete containers)
         self.dead = False
+        self.mutated: set = set()  # parameter names whose (caller-visible) container was mutated in place
+        self.rebound: set = set()  # names re-bound by a plain assignment (they no longer denote the caller's object)
 
     def copy(self) -> "State":
         s = State()
@@ -320,6 +322,8 @@ class State:
         s.escaped = set(self.escaped)
         s.ghost = dict(self.ghost)
         s.pyheap = dict(self.pyheap)
+        s.mutated = set(self.mutated)
+        s.rebound = set(self.rebound)
         return s
 
     def assume(self, c):
